@@ -227,12 +227,21 @@ func c06VersUnit(lvl int) core.Unit {
 				r.Add("accepted", 1)
 			}
 		}
+		// probes that take the pre-release paths of the schemes (pypi's pre-release gate, ...)
+		preProbes := []string{"2.0a1", "1.0.0-rc.1", "1.0~rc1", "1.0.dev1"}
 		for _, sch := range schemes {
 			valid := "vers:" + sch + "/>=1.0.0|<2.0.0"
 			for _, s := range all {
 				r.Add("states", 1)
 				check("vers:"+sch+"/"+s, "1.0.0")
 				check(valid, s)
+			}
+			// constraint texts from word tokens (local labels, marker letters, invalid operands)
+			for _, s := range gen.AllStrings([]string{"1.0", "+", "a", "b", "data", "dev", "rc", ">=", "<", "|", "banana", "."}, L) {
+				r.Add("states", 1)
+				for _, pp := range preProbes {
+					check("vers:"+sch+"/"+s, pp)
+				}
 			}
 		}
 		for _, s := range all {
